@@ -98,6 +98,10 @@ func genC07(seed uint64, tier Tier) *Case {
 	if g.r.Bool(0.5) {
 		c.Steps = append(c.Steps, Step{Kind: "sleep", Ms: int64(g.r.Range(200, 3000))}, Step{Kind: "validate", Label: "after-maintenance"})
 	}
+	if g.r.Bool(0.3) {
+		// what the concurrent history (several seals in flight) wrote is read back from the files
+		c.Steps = append(c.Steps, Step{Kind: "stop"}, Step{Kind: "start"}, Step{Kind: "validate", Label: "reloaded"})
+	}
 	c.Battery = g.battery(5)
 	return c
 }
